@@ -12,8 +12,8 @@ import (
 )
 
 func init() {
-	props["C13"] = &prop{gen: genC13, eval: evalC13}
-	props["C02"] = &prop{gen: genC02, eval: evalC02, timeout: 4 * time.Second}
+	props["C13"] = &prop{gen: genC13, eval: evalC13, pure: true}
+	props["C02"] = &prop{gen: genC02, eval: evalC02, timeout: 4 * time.Second, pure: true}
 }
 
 // ---------- C13: observers are pure, results are copies ----------
@@ -169,7 +169,12 @@ func evalC13(op string, args []string) string {
 		// Parse / MarshalBinary / Encode / predicates / list Get+Lookup / typed decoders / debug dumper
 		b := unhx(args[0])
 		secret := unhx(args[1])
-		orig := append([]byte{}, b...)
+		// "input" = the whole backing array the caller handed over: the octets behind len() up to the
+		// capacity belong to the caller as well (the rest of a receive buffer, the next datagram)
+		full := func(x []byte) []byte { return x[:cap(x)] }
+		orig := append([]byte{}, full(b)...)
+		origSecret := append([]byte{}, full(secret)...)
+		inputChanged := func() bool { return !bytes.Equal(full(b), orig) || !bytes.Equal(full(secret), origSecret) }
 		var out []string
 		flag := func(name string, bad bool) {
 			v := "0"
@@ -179,10 +184,24 @@ func evalC13(op string, args []string) string {
 			out = append(out, name+"="+v)
 		}
 		p, err := radius.Parse(b, secret)
-		flag("parse-writes-input", !bytes.Equal(b, orig))
+		flag("parse-writes-input", inputChanged())
 		radius.IsAuthenticRequest(b, secret)
 		radius.IsAuthenticResponse(b, b, secret)
-		flag("predicates-write-input", !bytes.Equal(b, orig))
+		// (request and response in separate buffers too, and every request code that is hashed)
+		predBad := false
+		if len(b) >= 20 {
+			for _, c := range []byte{4, 40, 43, 2} {
+				b2 := unhx(args[0])
+				b2[0] = c
+				o2 := append([]byte{}, full(b2)...)
+				radius.IsAuthenticRequest(b2, secret)
+				radius.IsAuthenticResponse(b2, b, secret)
+				if !bytes.Equal(full(b2), o2) {
+					predBad = true
+				}
+			}
+		}
+		flag("predicates-write-input", predBad || inputChanged())
 		// the exported ParseAttributes must not alias its input either
 		if len(b) > 20 {
 			region := append([]byte{}, b[20:]...)
@@ -207,7 +226,9 @@ func evalC13(op string, args []string) string {
 			b[i] ^= 0xff
 		}
 		flag("parsed-packet-aliases-buffer", snapshot(p) != s0)
-		copy(b, orig)
+		for i := range b {
+			b[i] ^= 0xff
+		}
 		// MarshalBinary / Encode leave the packet unchanged and return fresh buffers
 		w1, e1 := p.MarshalBinary()
 		w2, e2 := p.Encode()
@@ -289,7 +310,38 @@ func evalC13(op string, args []string) string {
 		d2 := debug.DumpString(&debug.Config{Dictionary: debug.IncludedDictionary}, p)
 		flag("dump-mutates-packet", snapshot(p) != snap)
 		flag("dump-not-repeatable", d1 != d2)
-		flag("input-changed-at-end", !bytes.Equal(b, orig))
+		flag("input-changed-at-end", inputChanged())
+		return strings.Join(out, " ")
+	case "pureencode":
+		// a packet built by hand (attribute types outside 0..255 included): MarshalBinary / Encode /
+		// AttributesEncodedLen are observers — the packet and every alias of its attribute list stay as they were
+		p := mkPacket(args[0], args[1], args[2], args[3], args[4])
+		view := p.Attributes[:len(p.Attributes):len(p.Attributes)]
+		s0, v0 := snapshot(p), showAttributes(view)
+		var out []string
+		flag := func(name string, bad bool) {
+			v := "0"
+			if bad {
+				v = "1"
+			}
+			out = append(out, name+"="+v)
+		}
+		radius.AttributesEncodedLen(p.Attributes)
+		flag("encodedlen-mutates-packet", snapshot(p) != s0 || showAttributes(view) != v0)
+		w1, e1 := p.MarshalBinary()
+		flag("marshal-mutates-packet", snapshot(p) != s0 || showAttributes(view) != v0)
+		w2, e2 := p.Encode()
+		flag("encode-mutates-packet", snapshot(p) != s0 || showAttributes(view) != v0)
+		w3, e3 := p.MarshalBinary()
+		flag("marshal-not-repeatable", (e1 == nil) != (e3 == nil) || !bytes.Equal(w1, w3))
+		w4, e4 := p.Encode()
+		flag("encode-not-repeatable", (e2 == nil) != (e4 == nil) || !bytes.Equal(w2, w4))
+		for _, w := range [][]byte{w1, w2, w3, w4} {
+			for i := range w {
+				w[i] ^= 0xff
+			}
+		}
+		flag("encoded-buffer-aliases-packet", snapshot(p) != s0 || showAttributes(view) != v0)
 		return strings.Join(out, " ")
 	}
 	return "UNKNOWN-OP"
@@ -376,6 +428,15 @@ func genC13(g *Gen, tier string, emit func(op string, args ...string)) {
 			}
 		}
 		emit("purecore", hx(b), hx(g.RandBytes(g.Pick(0, 1, 8))))
+	}
+	// hand-built packets, out-of-range attribute types in every position
+	for i := 0; i < n/4; i++ {
+		var as []avp
+		for k := g.Range(1, 6); k > 0; k-- {
+			t := g.Pick(1, 2, 26, 255, 0, -1, 256, 300, 511, 65536+1, 1<<32+5)
+			as = append(as, avp{t, g.RandBytes(g.Pick(0, 1, 4, 18, 253, 254))})
+		}
+		emit("pureencode", itoa(g.Pick(1, 2, 4, 5, 11, 12, 40, 300, -1)), itoa(g.Intn(256)), hx(g.RandBytes(16)), hx(g.RandBytes(g.Pick(0, 1, 8))), showAVPs(as))
 	}
 }
 
